@@ -40,7 +40,9 @@ META = {
                   "face keeps its parent edge across zero-length dual edges. Inputs include geometrically degenerate "
                   "ones (two-sided flat sheets, coincident vertices, all-equal coordinates). The "
                   "singular vertices are handed to the constructor in every legal container form (one-shot iterators "
-                  "included) and as a list completed between construction and run().",
+                  "included) and as a list completed between construction and run(); the cutter is exercised in usage "
+                  "sessions (other cutters on the same mesh, repeated / reconfigured runs, colliding attributes, library "
+                  "switches, declared edges) and the input mesh must come out unchanged.",
     "level_note": "Trusted: Coq kernel + vm_compute; the cutting.py translator; the correspondence harness (mesh "
                   "generator, driver wrapping the cutter's own methods to observe intermediate sets, canonicalisation); "
                   "mouette's SurfaceMesh tables (edges, direct_face, interior/boundary) are re-derived in the model "
@@ -189,6 +191,7 @@ def run_one(case):
 def strip(case):
     c = {k: case[k] for k in ("nv", "faces", "coords", "singus", "feat")}
     c["form"] = case.get("form") or "list"
+    c["session"] = dict(case.get("session") or {})
     c["late"] = min(int(case.get("late") or 0), len(case["singus"]))
     return c
 
@@ -204,6 +207,14 @@ def _candidates(cur):
         out.append(dict(cur, late=0))
     if (cur.get("form") or "list") != "list":
         out.append(dict(cur, form="list"))
+    for k in sorted(cur.get("session") or {}):
+        if k != "call" or cur["session"][k] != "kw":
+            s2 = dict(cur["session"])
+            if k == "call":
+                s2[k] = "kw"
+            else:
+                del s2[k]
+            out.append(dict(cur, session=s2))
     if cur["feat"]:
         for i in range(len(cur["feat"])):
             out.append(dict(cur, feat=cur["feat"][:i] + cur["feat"][i + 1:]))
@@ -220,7 +231,12 @@ def _candidates(cur):
         cand = {"nv": len(used), "faces": [[ren[v] for v in F] for F in faces],
                 "coords": [cur["coords"][v] for v in used], "singus": [ren[s] for s in cur["singus"]],
                 "feat": None if cur["feat"] is None else [sorted((ren[a], ren[b])) for a, b in cur["feat"]],
-                "form": cur.get("form") or "list", "late": cur.get("late", 0)}
+                "form": cur.get("form") or "list", "late": cur.get("late", 0), "session": {}}
+        sess = dict(cur.get("session") or {})
+        for dk in ("decoy", "post_decoy"):
+            if dk in sess:
+                sess[dk] = [ren[v] for v in sess[dk] if v in ren]
+        cand["session"] = sess
         if cand["feat"]:
             und = {tuple(sorted((F[i], F[(i + 1) % 3]))) for F in cand["faces"] for i in range(3)}
             if any(tuple(e) not in und for e in cand["feat"]):
@@ -277,6 +293,14 @@ def handcrafted():
     for form in G.FORMS:
         out.append({"nv": nv, "faces": faces, "coords": G.grid_coords(5, 5), "singus": [12, 16], "feat": None, "form": form})
     out.append({"nv": nv, "faces": faces, "coords": G.grid_coords(5, 5), "singus": [12, 16], "feat": None, "form": "list", "late": 1})
+    # sessions: results read, list completed, run again; another cutter on the same mesh before / after; colliding attributes
+    for sess in ({"reconfigure": True}, {"reconfigure": True, "access": "graph_first", "rerun": 1},
+                 {"decoy": [6, 18], "post_decoy": [0], "call": "pos"}, {"stale_attr": True, "dup_warning": True, "declared_edges": True},
+                 {"bad_then_repair": True, "sort_off": True, "call": "kwall"}):
+        out.append({"nv": nv, "faces": faces, "coords": G.grid_coords(5, 5), "singus": [12, 16, 0], "feat": None,
+                    "form": "list", "session": sess})
+        out.append({"nv": nv, "faces": faces, "coords": G.grid_coords(5, 5), "singus": [12, 6], "feat": [[11, 12], [12, 13]],
+                    "form": "list", "session": sess})
     out.append({"nv": nv, "faces": faces, "coords": G.grid_coords(5, 5), "singus": [7, 17, 13], "feat": [[6, 7], [7, 8]],
                 "form": "generator"})
     nv, faces = G.seed_grid(4, 5, True, True, diag=1)
@@ -302,6 +326,7 @@ def handcrafted():
     for c in out:
         c.setdefault("form", "list")
         c.setdefault("late", 0)
+        c.setdefault("session", {})
         c["info"] = dict(G.stats(c["nv"], c["faces"]), seed_kind="handcrafted", coords="fixed", singu_mode="fixed",
                          features=c["feat"] is not None, size="tiny", edits=[])
     return out
@@ -309,7 +334,7 @@ def handcrafted():
 
 def run(ctx):
     quick = ctx.tier == "quick"
-    n_gen = 300 if quick else 8000
+    n_gen = 300 if quick else 6000
     ctx.rule = ("connected oriented manifold triangulated surfaces (tetra/octa/bipyramid/fan/grid/annulus/torus/"
                 "genus-2 and torus#sphere sums, 0-3 opened holes, random 1-3 splits, edge splits, flips, deletions, "
                 "ears; 30% of the small bordered ones doubled into a closed two-sided sheet (genus 2g+b-1) whose two sheets "
@@ -317,7 +342,14 @@ def run(ctx):
                 "random/planar/tie-heavy and 12% degenerate: all equal, a few coincident points, collinear), <= 80 "
                 "faces; singular sets none/one/two/adjacent/many/on the border/mixed/all, handed to the constructor as "
                 "list/tuple/set/frozenset/numpy array/dict/vertex Attribute/generator/iterator/filter/map object "
-                "(60% non-list) or as a list completed after construction; 40% with a feature "
+                "(60% non-list, numpy dtypes int32/uint8/int64 scalars, dict views) or as a list completed after construction; "
+                "usage sessions: positional/keyword/omitted optional arguments, a decoy cutter on the same mesh before "
+                "and/or after run() whose results are wrecked in place, run() repeated, results read then the list "
+                "completed and run() again, cut_graph read before/after output_mesh, pre-existing attributes with the "
+                "names the cutter uses (with the duplicate-attribute switch on), edges declared by the caller in another "
+                "order and orientation, sort_neighborhoods switched off at run time, a run() that raises on a bad index "
+                "then repaired; vertex 0 singular in a quarter of the cases; two grids with more than 256 vertices "
+                "(oracle only); 40% with a feature "
                 "detector holding the border plus random interior feature edges/walks. Non-trivial = at least one "
                 "interior edge is cut or the surface has genus > 0 or >= 2 border loops; distinct = canonical JSON")
     ctx.assumptions += ["the input is a connected oriented manifold triangulated surface without two faces on the same "
@@ -342,6 +374,25 @@ def run(ctx):
     max_faces = 80 if quick else 100
     while len(cases) < n_gen:
         cases.append(G.gen_case(ctx.rng, max_faces=max_faces))
+    # surfaces with more than 256 vertices (indices beyond the small-integer range; oracle only: too large for the
+    # kernel-evaluated batches)
+    big = []
+    for _ in range(2 if quick else 8):
+        n, m = ctx.rng.randint(17, 19), ctx.rng.randint(16, 18)
+        wrap = ctx.rng.random() < 0.4
+        nvb, fb = G.seed_grid(n, m, wrap_i=wrap, rng=ctx.rng)
+        nvb, fb, perm = G.finalize(ctx.rng, nvb, fb)
+        co = [None] * nvb
+        for v, pxyz in enumerate(G.lattice_coords(ctx.rng, nvb, "random")):
+            co[perm[v]] = pxyz
+        sg = [v for v in ctx.rng.sample(range(257, nvb), 3)] + [ctx.rng.randrange(nvb)]
+        form = ctx.rng.choice(["list", "array32", "npscalars", "generator"])
+        c = {"nv": nvb, "faces": fb, "coords": co, "singus": sg, "feat": None, "form": form, "late": 0,
+             "session": G.gen_session(ctx.rng, nvb, False, form), "big": True}
+        c["info"] = dict(G.stats(nvb, fb), seed_kind="big-grid", coords="random", singu_mode="beyond-256", features=False,
+                         size="big", edits=[], form=form, late=0)
+        big.append(c)
+    cases += big
     ctx.log("running the implementation on %d cases" % len(cases))
     obs = run_impl_cases(cases, timeout=900 if quick else 3000)
     ctx.log("implementation done")
@@ -372,9 +423,12 @@ def run(ctx):
                                    ("degenerate" if i.get("coords") in G.DEGENERATE else "generic")))
         if c.get("late"):
             ctx.count("list completed after construction")
+        for k, v in sorted((c.get("session") or {}).items()):
+            if v not in (None, False, 0):
+                ctx.count("session %s" % (("call=" + v) if k == "call" else k))
         ctx.count("seed=%s" % i.get("seed_kind"))
         nontrivial = bool(o.get("ok")) and (len(o["cut"]) > len(o["boundary"]) or i.get("genus", 0) > 0 or i.get("loops", 0) >= 2)
-        ctx.case_seen([c["nv"], c["faces"], c["coords"], c["singus"], c["feat"], c.get("form"), c.get("late")], nontrivial=nontrivial,
+        ctx.case_seen([c["nv"], c["faces"], c["coords"], c["singus"], c["feat"], c.get("form"), c.get("late"), c.get("session")], nontrivial=nontrivial,
                       sample={"faces": c["faces"][:6], "singus": c["singus"], "feat": c["feat"],
                               "cut": o.get("cut"), "n_out": len(o.get("out_verts") or [])})
         f = oracle(c, o)
@@ -391,7 +445,8 @@ def run(ctx):
     ctx.log("oracle done: %d failing cases" % len(fails))
     # ---- kernel-checked correspondence + checkers
     bad = []
-    usable = [k for k, o in enumerate(obs) if o.get("ok")]
+    usable = [k for k, o in enumerate(obs) if o.get("ok") and not cases[k].get("big")]
+    ctx.count("oracle-only cases (more than 256 vertices)", sum(1 for c in cases if c.get("big")))
     if b["model_ok"]:
         terms = [case_term(cases[k], obs[k]) for k in usable]
         r = ctx.run_cases("cut", HEADER, terms, "check_case", case_type="case", shard=max(8, min(40, len(terms) // 16 + 1)),
@@ -450,7 +505,8 @@ def replay(ctx, data):
     f = oracle(case, o)
     print("singular vertices %s handed over as %s%s" % (case["singus"], case.get("form") or "list",
           (", the last %d appended after construction" % case["late"]) if case.get("late") else ""))
-    print("observed:", json.dumps({k: o.get(k) for k in ("error", "cut", "out_faces", "ref_vertex")})[:1500])
+    print("session:", json.dumps(case.get("session") or {}))
+    print("observed:", json.dumps({k: o.get(k) for k in ("error", "cut", "out_faces", "ref_vertex", "mesh_unchanged", "attr_leak")})[:1500])
     if f:
         for k, m in f:
             print("FAILS [%s]: %s" % (k, m))
